@@ -171,7 +171,7 @@ def judge(case, pre, r, faults, out, step, second_party=None, retry=True):
     # a body that closes the file it was handed: the save may fail (loudly, cleanly) or still complete
     failing_body = pre.body_raises or (pre.body_closes and r.exc is not None)
     expected_failure = (failing_body or pre.refused_dest or pre.refused_part
-                        or (second_party == 'dest' and not pre.overwrite) or second_party == 'part'
+                        or (second_party == 'dest' and not pre.overwrite) or second_party in ('part', 'rmpart')
                         or ('link' in pre.env and not pre.overwrite)
                         or (pre.name_too_long and r.exc is not None))
 
@@ -266,7 +266,9 @@ def judge(case, pre, r, faults, out, step, second_party=None, retry=True):
         # an immediate fault-free retry must succeed unless it is legitimately refused
         fs.full = False
         c2 = dict(case)
-        c2['body'] = [s for s in case['body'] if s[0] not in ('raise', 'close')]
+        c2['body'] = [s for s in case['body'] if s[0] not in ('raise', 'close', 'chdir')]
+        c2.pop('chdir', None)
+        fs.cwd = S.DIR                  # the retry names the same destination
         r2 = S.run_save(c2, simfs.Plan(), None, fs=fs)
         refused = r2.exc is not None and (pre.name_too_long or (not pre.overwrite and (
             fs.lexists(pre.dest) or 'link' in pre.env)))
@@ -297,7 +299,8 @@ def _why(pre, faults, second_party):
     if 'link' in pre.env and not pre.overwrite:
         parts.append('the file system does not support hard links')
     if second_party:
-        parts.append('another process created the %s file mid-save' % second_party)
+        parts.append('another process removed the part file mid-save' if second_party == 'rmpart'
+                     else 'another process created the %s file mid-save' % second_party)
     for kind, occ, f in faults:
         parts.append('%s #%d %s' % (kind, occ, 'short write' if f[0] == 'short' else
                                    ('disk full from here on' if f[0] == 'disk-full' else errno.errorcode.get(f[1], f[1]))))
@@ -407,6 +410,19 @@ def _run_faulted(case, pre, plan_faults, labels, log, out, second_party=None, sp
             act.reenter_error = None
             hooks.act = act
             return {sp_key: act}
+    elif second_party == 'rmpart':
+        def hooks(sim):
+            def act():
+                # a tmp cleaner (or an operator tidying up "stale" files) removes the part file of the save in progress
+                if not act.fired and sim.fs.lexists(pre.part) and sim.fs.binding(pre.part) != pre_binding.get('part') \
+                        and not any(p[1] == pre.dest for p in sim.publish):
+                    sim.fs.unlink(pre.part)
+                    act.fired = True
+            act.fired = False
+            hooks.act = act
+            pre_binding['part'] = sim.fs.binding(pre.part)
+            return {sp_key: act}
+        pre_binding = {}
     elif second_party:
         def hooks(sim):
             def act():
@@ -431,6 +447,8 @@ def _run_faulted(case, pre, plan_faults, labels, log, out, second_party=None, sp
     if sp_fired and second_party == 'thread':
         out.fault('another-thread-saves-mid-save')
         r.other_thread = hooks.act
+    elif sp_fired and second_party == 'rmpart':
+        out.fault('second-party-removes-part')
     elif sp_fired:
         out.fault('second-party-creates-' + second_party)
     return r, fired, sp_fired
@@ -494,7 +512,9 @@ def run_case(case):
     # second party: another process creates the destination / the part file before event k
     if out.violation is None:
         for k, (kind, occ) in enumerate(base.sim.occ):
-            for who in ('dest', 'part'):
+            for who in ('dest', 'part', 'rmpart'):
+                if who == 'rmpart' and (kind in ('open', 'stat', 'lexists') or pre.part_present):
+                    continue
                 if who == 'dest' and pre.dest_present:
                     continue
                 if who == 'part' and (pre.part_present or kind != 'open' or base.sim.trace[k][1] != pre.part):
